@@ -309,9 +309,13 @@ def check_property(prop, tier, seed, rebaseline=False):
             e2 = {k: v for k, v in e.items() if k not in ('source_text',)}
             extraction.append(e2)
         stubs += r['info']['stubs']
-    # thorough: extra passes are added by the caller (mutation self-test, kani, replays)
     status = 0
     lines = []
+    thorough = {}
+    if tier == 'thorough' and not os.environ.get('VERIF_NO_NESTED'):
+        thorough = thorough_extras(prop, kf)
+        for u in thorough.get('undecided', []):
+            undecided.append(u)
     for k in known:
         lines.append('KNOWN-FINDING: property=%s %s: %s (unit %s)' % (prop, k['finding'], k['what'], k['unit']))
     seen = set()
@@ -350,6 +354,7 @@ def check_property(prop, tier, seed, rebaseline=False):
                         shim_consistency=sum(1 for r in results if any(m.get('region') == 'guard' for m in r['linemap']))),
             known_findings_seen=known, foreign_failures=[dict(unit=f['unit'], obligation=f['obligation'], props=f['props']) for f in foreign],
             undecided=undecided, notes=notes,
+            thorough=thorough,
             not_covered=load_json(os.path.join(ROOT, 'scope.json'), {}).get(prop, {}).get('not_covered', ''),
         ),
         assumptions=load_json(os.path.join(ROOT, 'scope.json'), {}).get('_assumptions', []),
@@ -370,6 +375,39 @@ def check_property(prop, tier, seed, rebaseline=False):
         sum(1 for e in extraction if 'unit' in e), len(tpls), wall, smt_us / 1e6,
         ', %d known finding(s)' % len(known) if known else ''))
     return status
+
+
+def thorough_extras(prop, kf):
+    """thorough tier: (a) mutation self-test of the contracts serving this property (each hand-written property-breaking
+    edit in mutants.json is applied to a scratch copy of the sources and must be rejected), (b) replay of the known
+    findings of this property against the real code."""
+    import subprocess
+    res = dict(undecided=[])
+    muts = [m for m in load_json(os.path.join(ROOT, 'mutants.json'), []) if m.get('prop') == prop]
+    if muts and REPO == '/repo' or (muts and os.environ.get('VERIF_REPO')):
+        env = dict(os.environ, VERIF_NO_NESTED='1', VERIF_TIER='quick')
+        p = subprocess.run([os.path.join(ROOT, 'tools', 'mutants.py')] + ['=' + m['id'] for m in muts], capture_output=True, text=True, env=env)
+        rows = [ln.split() for ln in p.stdout.split('\n') if ln and not ln.startswith('killed ')]
+        killed = [r[0] for r in rows if len(r) > 1 and r[1] == 'killed']
+        survived = [r[0] for r in rows if len(r) > 1 and r[1] == 'SURVIVED']
+        other = [r[0] for r in rows if len(r) > 1 and r[1] not in ('killed', 'SURVIVED')]
+        res['mutation_self_test'] = dict(mutants=len(muts), killed=len(killed), survived=survived, undecided_or_skipped=other)
+        if survived:
+            res['undecided'].append('mutation self-test: contract too weak, surviving mutants: %s' % ', '.join(survived))
+    fnd = [f for f in kf if prop in f.get('properties', [])]
+    if fnd:
+        p = subprocess.run([os.path.join(ROOT, 'tools', 'replay_findings.py')], capture_output=True, text=True)
+        rep = {}
+        for ln in p.stdout.split('\n'):
+            mm = re.match(r'REPLAY (F\d+) (reproduces|does NOT reproduce)', ln)
+            if mm:
+                rep[mm.group(1)] = (mm.group(2) == 'reproduces')
+        res['findings_replayed_on_real_code'] = {f['id']: dict(status=f.get('status'), reproduces=rep.get(f['id'])) for f in fnd}
+        for f in fnd:
+            r = rep.get(f['id'])
+            if f.get('status') == 'fixed' and r is True:
+                res['undecided'].append('finding %s is recorded as fixed but its replay still exhibits the defect on the real code' % f['id'])
+    return res
 
 
 def do_rebaseline(results):
